@@ -1,13 +1,13 @@
 """C09 -- forever jobs are never waited for and never outlive the run."""
 
-from . import runrules, shutrules, common
+from . import predicates, runrules, shutrules, common
 
 
 def check(ctx, rep):
     rep.explanation = (
         "R09.1 confinement: the `forever` attribute influences no start condition, no candidate set and no "
         "wait argument. R09.2 both sides of the completion test count non-forever jobs only. R09.3 the "
-        "success exit cancels and awaits what is still pending (EXIT automaton), then shuts down.")
+        "success exit cancels and awaits what is still pending (EXIT automaton), then shuts down. R09.6 the `forever` flag is what the caller gave.")
     rep.declined = ["instants"]
     rep.trusted = ["T1", "T3"]
     runrules.forever_confined(ctx, rep, "R09.1")
@@ -16,3 +16,4 @@ def check(ctx, rep):
     runrules.tidy_shape(ctx, rep, "R09.3t")
     shutrules.cancellation_edges(ctx, rep, "R09.4")
     common.wrap_typestate(ctx, rep, "R09.5")
+    predicates.config_verbatim(ctx, rep, "R09.6", ('forever',))
